@@ -184,7 +184,7 @@ func checkC13(tier, replay string) int {
 		bound, sh, nsh int
 	}
 	var jobs []job
-	scens := []string{"shared-copies-small", "shared-copies", "two-archs", "assemble-dump", "assemble-getinfo", "assemble-texts", "same-value-twice"}
+	scens := []string{"shared-copies-small", "shared-copies", "shared-slices-two-archs", "two-archs", "assemble-dump", "assemble-getinfo", "assemble-texts", "same-value-twice"}
 	b2 := map[string]bool{"shared-copies-small": true}
 	if tier == "thorough" {
 		for _, s := range scens {
@@ -265,7 +265,7 @@ func checkC13(tier, replay string) int {
 		ctx.Capped(fmt.Sprintf("%d schedules could not be replayed deterministically (nondeterministic step count in the code under test)", diverged))
 	}
 	lap("exploration")
-	// 3. sequential histories: all sequences of length <= 4 over 6 operations
+	// 3. sequential histories: all sequences of length <= 4 over 8 operations
 	histories, hsteps := c13Histories(ctx)
 	// 4. text forms and compiled programs across fresh processes
 	self, _ := os.Executable()
@@ -324,13 +324,13 @@ func checkC13(tier, replay string) int {
 	ctx.Cov["fresh_processes_for_text_forms"] = procs
 	ctx.Cov["distinct_text_results_seen"] = distinctTexts
 	ctx.Cov["race_pass_runs"] = raceRuns
-	ctx.Cov["rule"] = "the current sources of the library packages are rewritten (a scheduling point before every statement; functions that iterate maps run as atomic steps), compiled with go build -overlay and run under a cooperative scheduler; for each scenario (two copies sharing backing arrays, two architectures, Assemble||Dump, Assemble||GetInfo, Assemble||text conversions, same value twice, three threads) every schedule with at most 1 preemption (2 for the small shared-copies scenario; thorough: 2 for every two-thread scenario) is executed on the real code; oracle per schedule: each call returns what it returns alone and every input policy incl. spare slice capacity is bit-identical; a reported schedule is replayed twice in a fresh process; plus all operation histories of length <= 4 over 6 operations, text forms over 512 calls in fresh processes, and a separate free-running -race pass of the same bodies"
+	ctx.Cov["rule"] = "the current sources of the library packages are rewritten (a scheduling point before every statement; functions that iterate maps run as atomic steps), compiled with go build -overlay and run under a cooperative scheduler; for each scenario (two copies sharing backing arrays, two architectures, Assemble||Dump, Assemble||GetInfo, Assemble||text conversions, same value twice, three threads) every schedule with at most 1 preemption (2 for the small shared-copies scenario; thorough: 2 for every two-thread scenario) is executed on the real code; oracle per schedule: each call returns what it returns alone and every input policy incl. spare slice capacity is bit-identical; a reported schedule is replayed twice in a fresh process; plus all operation histories of length <= 4 over 8 operations (incl. compiling two values that share one Syscalls slice for two architectures), text forms over 512 calls in fresh processes, and a separate free-running -race pass of the same bodies"
 	ctx.Sample(map[string]any{"scenario": "shared-copies", "threads": []string{"Assemble(p)", "Assemble(copy of p sharing Syscalls/Names/Conditions arrays)"}, "schedule_example": "thread 0 runs to filter.go:2xx, preempted, thread 1 runs to completion, thread 0 resumes"})
 	ctx.Assumptions = []string{"scheduling points at statement granularity; unsynchronised accesses inside one statement are covered by the separate -race pass", "map iteration order cannot be controlled; it is covered by repetition across processes (miss probability < 1e-14 per process for the 2-key flag map)"}
 	return ctx.Finish()
 }
 
-// c13Histories: all sequences of length <= 4 over 6 operations; every compilation must equal its solo result.
+// c13Histories: all sequences of length <= 4 over 8 operations; every compilation must equal its solo result.
 func c13Histories(ctx *evid.Ctx) (int64, int64) {
 	x := refsemArch("x86_64")
 	arm := refsemArch("arm")
@@ -338,6 +338,21 @@ func c13Histories(ctx *evid.Ctx) (int64, int64) {
 	soloQ := c13Compile(c13Policy(arm, 0))
 	soloDump := c13Dump(c13Policy(x, 1))
 	soloTexts := c13Texts()
+	i386 := refsemArch("i386")
+	mkShared := func() (*seccomp.Policy, *seccomp.Policy) {
+		p := &seccomp.Policy{DefaultAction: seccomp.ActionKillProcess, Syscalls: []seccomp.SyscallGroup{
+			{Action: seccomp.ActionAllow, Names: []string{"read", "execve"}}, {Action: seccomp.ActionErrno, Names: []string{"write"}}, {Action: seccomp.ActionTrap, Names: []string{"fork"}}}}
+		q := *p
+		seccomp.VerifSetArch(p, x.Info)
+		seccomp.VerifSetArch(&q, i386.Info)
+		return p, &q
+	}
+	sp0, sq0 := mkShared()
+	soloSP := c13Compile(sp0)
+	sp1, sq1 := mkShared()
+	_ = sp1
+	soloSQ := c13Compile(sq1)
+	_ = sq0
 	var n, steps int64
 	var seq []int
 	var rec func()
@@ -346,6 +361,7 @@ func c13Histories(ctx *evid.Ctx) (int64, int64) {
 		p := c13Policy(x, 1)
 		q := c13Policy(arm, 0)
 		snapP, snapQ := c13Snapshot(p), c13Snapshot(q)
+		sp, sq := mkShared()
 		for si, op := range seq {
 			steps++
 			var got, want string
@@ -361,6 +377,10 @@ func c13Histories(ctx *evid.Ctx) (int64, int64) {
 				got, want = c13Dump(p), soloDump
 			case 5:
 				got, want = c13Texts(), soloTexts
+			case 6:
+				got, want = c13Compile(sp), soloSP
+			case 7:
+				got, want = c13Compile(sq), soloSQ
 			}
 			if got != want {
 				ctx.Violation(fmt.Sprintf("C13:history:op%d", op), fmt.Sprintf("history %v: step %d (op %d) gives a different result than the same call alone", seq, si, op), map[string]any{"history": append([]int{}, seq...)})
@@ -378,7 +398,7 @@ func c13Histories(ctx *evid.Ctx) (int64, int64) {
 		if len(seq) == 4 {
 			return
 		}
-		for op := 0; op < 6; op++ {
+		for op := 0; op < 8; op++ {
 			seq = append(seq, op)
 			rec()
 			seq = seq[:len(seq)-1]
